@@ -1,5 +1,6 @@
 SPECIFICATION CoreSpec
 CONSTANTS
+  SnapshotChoices = FALSE
   RetryOnAbort = TRUE
   Kinds = {"choice", "plain"}
   MaxChoices = 1
@@ -9,4 +10,7 @@ CONSTANTS
   Attempts = {0, 2}
   NDefaults = 0
   Inter = {TRUE}
+  Multis = {FALSE, TRUE}
+  Muts = {0}
+  Rounds = 1
 PROPERTY Termination
